@@ -26,13 +26,13 @@ import hashlib
 import os
 import random
 import sys
-from dataclasses import dataclass, field
+from dataclasses import dataclass
 from typing import Any, Callable
 
 import numpy as np
 
 from pvf import reflect
-from pvf.refeval import RefEval, RefOutOfBounds, RefUnsupported
+from pvf.refeval import RefEval, RefUnsupported
 
 SHIM = os.path.join(os.path.dirname(os.path.abspath(__file__)), "shim")
 BASE_TAG = 100
@@ -571,7 +571,6 @@ def classify(builds) -> dict:
     -> {"valid": bool, "unspecified": bool, "reasons": [...],
         "expected": set of diagnostic family names}
     """
-    from pytato.distributed.nodes import DistributedSendRefHolder
     reasons: list[str] = []
     expected: set[str] = set()
     unspecified = False
@@ -658,7 +657,6 @@ def classify(builds) -> dict:
     if any(state.get(k) is None and cyc(k) for k in list(graph)):
         reasons.append("cyclic dependency among messages")
         expected.add("cycle")
-    del DistributedSendRefHolder
     # the no-verdict conditions only matter for otherwise well-formed programs
     return {"valid": not reasons, "unspecified": unspecified and not expected,
             "reasons": reasons, "expected": expected,
